@@ -206,7 +206,7 @@ def gen_cases(tier: str, seed: int) -> List[Dict]:
         c.update(kw)
         cases.append(c)
 
-    reps = 1 if quick else 3
+    reps = 3 if quick else 30
     for _ in range(reps):
         for names, exps in monosets:
             for (g, r) in flags:
